@@ -551,6 +551,89 @@ class Piece:
             self.subs.append((m.start(), m.end(), new, rule))
         return len(ms)
 
+    def rewrite_slices(self, required=False):
+        """Catalogue R5 (+R6), token level, shape independent:
+             [&]base[lo..hi] -> slice_subrange(base, lo, hi)
+             [&]base[lo..]   -> slice_from(base, lo)
+             [&]base[..hi]   -> slice_to(base, hi)
+           and `<path>::from_le_bytes(<such a slice>.try_into().unwrap())` -> le_word(<slice fn>).
+           `base` is a plain path (identifiers, `self`, field accesses). Returns the number of rewrites."""
+        src = self.item.src
+        code = src.code
+        lo_i, hi_i = self.item.toks_lo, self.item.toks_hi
+        n = 0
+        k = lo_i
+        body_open = self.item.body_open if self.item.body_open is not None else self.base
+        while k < hi_i:
+            t = code[k]
+            if t.start < body_open or t.text != "[" or t.kind != "punct" or k == 0:
+                k += 1
+                continue
+            prev = code[k - 1]
+            if prev.kind != "ident":
+                k += 1
+                continue
+            close = src.pair[k]
+            # top-level `..` inside the brackets
+            dots, depth = None, 0
+            for j in range(k + 1, close):
+                tj = code[j]
+                if tj.kind == "punct" and tj.text in _OPEN:
+                    depth += 1
+                elif tj.kind == "punct" and tj.text in _CLOSE:
+                    depth -= 1
+                elif depth == 0 and tj.kind == "punct" and tj.text in ("..", "..="):
+                    dots = j
+                    break
+            if dots is None or code[dots].text == "..=":
+                k += 1
+                continue
+            # base path backwards
+            b = k - 1
+            while b - 2 >= lo_i and code[b - 1].text == "." and code[b - 2].kind == "ident":
+                b -= 2
+            start_tok = b
+            if b - 1 >= lo_i and code[b - 1].text == "&":
+                start_tok = b - 1
+            base = src.text[code[b].start:code[k - 1].end]
+            lo = src.text[code[k + 1].start:code[dots - 1].end].strip() if dots > k + 1 else ""
+            hi = src.text[code[dots + 1].start:code[close - 1].end].strip() if close > dots + 1 else ""
+            if lo and hi:
+                rep = "slice_subrange(%s, %s, %s)" % (base, lo, hi)
+            elif lo:
+                rep = "slice_from(%s, %s)" % (base, lo)
+            elif hi:
+                rep = "slice_to(%s, %s)" % (base, hi)
+            else:
+                k += 1
+                continue
+            rule = "R5"
+            s_b, e_b = code[start_tok].start, code[close].end
+            # R6: from_le_bytes(<slice>.try_into().unwrap())
+            nxt = [code[close + i].text if close + i < hi_i else "" for i in range(1, 10)]
+            if nxt[:7] == [".", "try_into", "(", ")", ".", "unwrap", "("] and nxt[7] == ")":
+                after = close + 9
+                if after < hi_i and code[after].text == ",":
+                    after += 1
+                if (after < hi_i and code[after].text == ")" and start_tok - 2 >= lo_i
+                        and code[start_tok - 1].text == "(" and code[start_tok - 2].text == "from_le_bytes"):
+                    q = start_tok - 2
+                    while q - 2 >= lo_i and code[q - 1].text == "::" and code[q - 2].kind == "ident":
+                        q -= 2
+                    s_b, e_b = code[q].start, code[after].end
+                    rep = "le_word(%s)" % rep
+                    rule = "R5+R6"
+            a0, a1 = s_b - self.base, e_b - self.base
+            old = self.text[a0:a1]
+            if old.count("\n"):
+                rep = rep + "\n" * old.count("\n")
+            self.subs.append((a0, a1, rep, rule))
+            n += 1
+            k = close + 1
+        if required and n == 0:
+            raise Lost("%r: no slice expression found for rule R5" % self.item)
+        return n
+
     def render(self):
         """-> (text, log, linemap) ; linemap[i] = source line of generated line i or None."""
         ops = []
